@@ -18,8 +18,8 @@ def gen_rows(rng, n, with_objects):
         r = {'id': rng.choice([1, 2, 3, 4, 5]), 'grp': rng.choice(['a', 'b', None]), 'v': rng.choice(['x', 'y', 'zz', 'ü']),
              'n': rng.randint(-3, 50)}
         if with_objects:
-            r['l'] = rng.choice([[1, 2], [], ['q', None]])
-            r['o'] = rng.choice([{'k': 1}, {}, {'a': [1]}])
+            r['l'] = rng.choice([[1, 2], [], ['q', None], None, None])
+            r['o'] = rng.choice([{'k': 1}, {}, {'a': [1]}, None, None])
         rows.append(r)
     return rows
 
@@ -107,8 +107,8 @@ def history_case(ctx, rng, idx, pending):
         # ---- oracle, straight from the property statement
         spec_table, spec_flags = spec(hist_case['dumps'])
         # a table is a set of rows: SELECT * order is the engine's business (rowid / primary-key order)
-        have = sorted((canon_db_row(r, with_objects) for r in table), key=json.dumps)
-        want = sorted((canon.norm_row(canon.enc_row(r)) for r in spec_table), key=json.dumps)
+        have = sorted((canon_db_row(r, with_objects) for r in table), key=lambda r_: json.dumps(r_, sort_keys=True))
+        want = sorted((canon.norm_row(canon.enc_row(r)) for r in spec_table), key=lambda r_: json.dumps(r_, sort_keys=True))
         if have != want:
             sig = 'table-state:%s' % mode
             if len(have) != len(want):
@@ -187,7 +187,7 @@ def run(ctx):
         outs = ctx.model.run([{'op': 'sqlhist', 'dumps': dumps} for _, dumps, _ in pending])
         for (case, dumps, real), mo in zip(pending, outs):
             last = mo['after'][-1]
-            rep.corr('sqlhist', case, real, {'table': sorted((canon.norm_row(r) for r in last['table']), key=json.dumps), 'flags': last['flags']})
+            rep.corr('sqlhist', case, real, {'table': sorted((canon.norm_row(r) for r in last['table']), key=lambda r_: json.dumps(r_, sort_keys=True)), 'flags': last['flags']})
     else:
         rep.disagreements.append({'op': 'sqlhist', 'case': 'driver unavailable', 'real': None, 'model': None})
 
